@@ -54,6 +54,12 @@ def capture_process(ctx):
         okc = okc and itd is not None and pmatch("iter(Q_v)", itd) is not None
     ctx.check(okc, "C33.capture-consume-order", e.site, "evlog_process.consumed", found=f"emit_raw({tstr(m['c'])}, {tstr(m['i'])}, {tstr(m['v'])[:80]}) if {fstr(g)}",
               required="per record, in the same order: first the trigger, then one value per field; a record is emitted iff its trigger sampled true, with its own site index")
+    # the whole path: the process only gives up when there is nothing to sample
+    r_emit = fn.reach(Effect, lambda x: pmatch("Q_s.emit_raw(Q_c, Q_i, Q_v)", x.call) is not None)
+    others = [a for a in atoms_of(r_emit) if a not in ats]
+    okr = okc and len(others) <= 1 and (not others or (others[0] == records and equivalent(r_emit, f_and(A(records), A(ats[0]))) is None))
+    ctx.check(okr, "C33.capture-every-cycle", e.site, "evlog_process.reach", found=f"a record is emitted iff {fstr(r_emit)[:160]}",
+              required="emitted iff there are records to sample and the record's trigger sampled true (no other way out of the process)")
     cyc = m["c"]
     ctx.check(cyc[0] == "i" and cyc[1] == lp[0][0][0], "C33.capture-cycle", e.site, "evlog_process.cycle", found=tstr(cyc), required="the cycle number is the tick counter sampled in the same tick", nontrivial=False)
     # schema order
@@ -140,6 +146,17 @@ def record_layout(ctx):
                             idx = [x[2] for x in (md["a"], md["b"], md["c"]) if x[0] == "i"]
                             ok = idx == [("c", 0), ("c", 1), ("c", 2)]
                             detail = tstr(d)
+        # every non-blank line is a record
+        pred = (lambda e, s=sink: pmatch(s, e.call) is not None) if sink else (lambda e: is_call_n(e.call, "yield") and bool(e.call[2]))
+        r = fn.reach(Effect, pred)
+        ats = atoms_of(r)
+        okl = False
+        if len(ats) == 1:
+            # the one test on the way is the truth value of the stripped line
+            a = ats[0]
+            defs = [d for ex in fn.exs for d in [ex.vardef(a)] if d is not None]
+            okl = equivalent(r, A(a)) is None and (pmatch("Q_l.strip()", defs[0]) is not None if defs else (a[0] in ("v", "loopvar", "n", "b")))
+        ctx.check(okl, "C33.every-line-read", fn.site, q + ".lines", found=f"a record is produced iff {fstr(r)[:160]}", required="every line of the file whose stripped text is non-empty yields one record")
         hdr = [(ex, e) for ex in fn.exs for e in ex.of(Effect) if has("Q_f.readline()", e.call)] + [(ex, t) for ex in fn.exs for t in ex.vardefs.values() if has("_read_header(Q_f)", t)]
         ctx.check(ok, "C33.record-layout", fn.site, q, found=detail or "no consumer found", required="a line is unpacked as cycle, site, values in that order")
         ctx.check(bool(hdr), "C33.header-first", fn.site, q + ".header", found=f"{len(hdr)} header read(s)", required="the header line is consumed before the records", nontrivial=False)
@@ -177,6 +194,17 @@ def sampler(ctx):
             else:
                 okg = False
             okg = okg and implies(g, A(a)) is None
+            # ... and nothing else stands in the way: the path condition of the emission is the mode test and the
+            # site's trigger (a packed word that is zero has no bit set, so an early return on it changes nothing)
+            r = fn.reach(Effect, lambda x, e=e: x.call == e.call and x.frames == e.frames)
+            mode = [t for t in atoms_of(r) if t[0] == "op" and t[1] == "is" and ("c", None) in t[2:]]
+            word = [t for t in atoms_of(r) if t not in mode and t != a and not any(s == site for s in subterms(t))]
+            if okg and len(mode) == 1 and len(word) <= 1:
+                want = f_and(f_not(A(mode[0])) if kind == "packed" else A(mode[0]), A(a))
+                alt = f_and(want, A(word[0])) if word and kind == "packed" and (ex.vardef(word[0]) or word[0]) == pat("self._packed_triggers()") else want
+                okg = equivalent(r, want) is None or equivalent(r, alt) is None
+            else:
+                okg = False
         ctx.check(ok and okv and okg, "C33.sampler-site-index", e.site, f"GeneratedEvLogSampler.sample[{kind}]", found=f"{tstr(e.call)[:140]} if {fstr(g)[:120]}",
                   required="site k is emitted iff its trigger (bit k of the packed word / its own trigger reader) is set, with site index k and that site's field readers")
     ctx.check(packed_seen and plain_seen, "C33.sampler-both-modes", fn.site, "GeneratedEvLogSampler.sample.modes", found=f"packed={packed_seen} per-site={plain_seen}", required="packed and per-site trigger modes analysed", nontrivial=False)
@@ -242,11 +270,49 @@ def consumer(ctx):
                 src = _ast.unparse(clo.node.body) if isinstance(clo.node, _ast.Lambda) else ""
                 ok = src.endswith(".cycle") and pmatch("self.dispatch(Q_r)", e.call)["r"] == lp[0][0][0] and py_guard(e) is True
     ctx.check(ok, "C33.consumer-cycle-order", fn.site, "EventConsumer.run", found="; ".join(f"{tstr(e.call)} over {[tstr(i)[:60] for i in loop_iters(e)]}" for _, e in ds), required="every record is dispatched, in ascending cycle order")
+    # dispatch hands the record to the handler registered for its event name
+    fd = Fn(ctx.repo, CONSUMER, "EventConsumer.dispatch", "C33")
+    rec = fd.param(1)
+    ok = False
+    detail = "no handler call"
+    for ex, e in fd.facts(Effect):
+        if e.call[0] != "call" or e.call[2] != (rec,) or e.call[3]:
+            continue
+        h = ex.vardef(e.call[1]) or e.call[1]
+        mg = pmatch("getattr(self, Q_n)", h)
+        detail = f"{tstr(h)}({tstr(rec)}) if {fstr(py_guard(e))[:120]}"
+        if mg is None:
+            continue
+        nm = ex.vardef(mg["n"]) or mg["n"]
+        mk = pmatch("self._handlers.get(Q_k)", nm)
+        g = py_guard(e)
+        ats = atoms_of(g)
+        ok = mk is not None and mk["k"] == ("a", ("a", rec, "event"), "event_name") and len(ats) == 1 and ats[0][0] == "op" and ats[0][1] == "is" and ("c", None) in ats[0][2:] and equivalent(g, f_not(A(ats[0]))) is None
+    ctx.check(ok, "C33.consumer-dispatch", fd.site, "EventConsumer.dispatch", found=detail, required="getattr(self, self._handlers[rec.event.event_name])(rec) whenever a handler is registered for the event name")
+    fi = Fn(ctx.repo, CONSUMER, "EventConsumer.__init_subclass__", "C33")
+    regs = fi.facts(St, lambda s: s.target[0] == "i" and pmatch("Q_h.event_name", s.target[2]) is not None)
+    ok = False
+    for ex, s in regs:
+        lp = loops(s)
+        g = py_guard(s)
+        ats = atoms_of(g)
+        hd = pmatch("Q_h.event_name", s.target[2])["h"]
+        hdd = ex.vardef(hd) or hd
+        mgt = pmatch("getattr(Q_f, '_evlog_handles', None)", hdd)
+        ok = (len(lp) == 1 and pmatch("vars(Q_c).items()", lp[0][1]) is not None and mgt is not None and mgt["f"] == ("i", lp[0][0][0], ("c", 1)) and s.value == ("i", lp[0][0][0], ("c", 0))
+              and len(ats) == 1 and equivalent(g, f_not(A(ats[0]))) is None and ats[0][0] == "op" and ats[0][1] == "is")
+        tgt = s.target[1]
+    final = fi.facts(St, lambda s: pmatch("Q_c._handlers", s.target) is not None)
+    ctx.check(ok and bool(final) and any(s.value == tgt for _, s in final if ok), "C33.consumer-handlers", fi.site, "EventConsumer.__init_subclass__", found="; ".join(f"{tstr(s.target)} = {tstr(s.value)} if {fstr(py_guard(s))}" for _, s in regs) or "no registration",
+              required="every attribute marked with an event class is registered under that event's name, and the table is stored on the class")
 
 
 def check(ctx):
     ctx.use(EMIT, LOG, SAMPLER, TEVLOG, CONSUMER, SCHEMA)
     capture_process(ctx)
+    from . import c33y
+
+    c33y.event_tables(ctx)
     decoder(ctx)
     from . import c33x
 
